@@ -3,6 +3,7 @@
   Property theorems only; the model is `Snmp.Model.Cfg`, the tables are generated facts.
 -/
 import Snmp.Model.Cfg
+import Snmp.Gen.Facts
 namespace Snmp.Props.C18
 open Snmp.Cfg
 
@@ -230,5 +231,11 @@ example : (execList [.reconfigure [("credentials", .cred ⟨.v3, 1⟩), ("timeou
     [(1, 2, 10, 3), (0, 2, 10, 3), (0, 2, 1, 3), (0, 6, 10, 1)] := by decide
 example : (configure [("credentials", .cred ⟨.v3, 1⟩)] s0).toOption.map (fun s => (s.mpm, s.fresh, s.config.credentials)) =
     some (⟨3, 1⟩, 2, ⟨.v3, 1⟩) := by decide
+
+
+/-- `Client.reconfigure` puts the saved `config` and `mpm` back in a `finally` around
+    `configure(**kwargs); yield` (shape of the code, generated) — what the `Cfg` interpreter's
+    handling of exceptional exits is built on -/
+theorem C18_restore_shape : Snmp.Gen.reconfigureRestoresInFinally = true := by decide
 
 end Snmp.Props.C18
